@@ -130,7 +130,13 @@ func CheckPillarBalance(g *GenesisConfig) error {
 }
 func CheckTokenTotalSupply(g *GenesisConfig) error {
 	given := make(map[types.ZenonTokenStandard]*big.Int)
+	seen := make(map[types.Address]bool)
 	for _, block := range g.GenesisBlocks.Blocks {
+		// the state is built per entry: a second entry for an account would replace the first, not add to it
+		if _, listed := seen[block.Address]; listed {
+			return errors.Errorf("account %v is listed more than once", block.Address)
+		}
+		seen[block.Address] = true
 		for zts, amount := range block.BalanceList {
 			total, ok := given[zts]
 			if !ok {
